@@ -305,6 +305,10 @@ def check(run):
             return product(e["lhs"]) + product(e["rhs"])
         return [e]
 
+    fparams = [q.get("name") for q in fz.get("params", [])]
+    run.require(len(fparams) == 3, "fill_to_capacity_with_tokens: expected (percentage, buffer, num_errors), found %s" % fparams)
+    pct_param = fparams[0]
+
     def side(e):
         fs = product(e)
         if len(fs) != 2:
@@ -314,7 +318,7 @@ def check(run):
         cs = [(hirq.callee(c) or "") for f in fs for c in hirq.calls(f)]
         if lits == [100] and any(c.endswith("String::len") for c in cs):
             return "len"
-        if "percentage" in names and any(c.endswith("String::capacity") for c in cs):
+        if pct_param in names and any(c.endswith("String::capacity") for c in cs):
             return "cap"
         return None
     ok = False
